@@ -560,7 +560,7 @@ func runC14(c *Ctx) {
 	}
 	assignments := [][]destT{
 		{L, L, L},
-		{P, F(2, "level"), L},         // event 0 (info) is filtered out at destination 1, event 1 (error) passes
+		{P, F(2, "level"), L}, // event 0 (info) is filtered out at destination 1, event 1 (error) passes
 		{F(3, "plain"), P, F(1, "level")},
 		{F(4, "level"), F(0, "level"), P}, // destination 0 never reached
 	}
@@ -642,4 +642,7 @@ func runC14(c *Ctx) {
 
 	// 5. the event is recycled also when the write fails (allocation monitor)
 	monitorRecycling(c)
+
+	// 6. handler histories: the handler logs itself; handler calls overlap
+	monitorHandlerHistories(c)
 }
